@@ -85,3 +85,6 @@ func (x *TopicsIndex) VerifTrieDump() string {
 	sort.Strings(rs)
 	return strings.Join(out, " ") + " RET[" + strings.Join(rs, ",") + "]"
 }
+
+// VerifRefreshDeadline exposes Client.refreshDeadline.
+func (cl *Client) VerifRefreshDeadline(keepalive uint16) { cl.refreshDeadline(keepalive) }
